@@ -1122,6 +1122,12 @@ func (p *Parser) parseIf() ast.Node {
 		if p.peekTokenIs(token.IF) { // this is an "else if"
 			p.nextToken() // move to the "if"
 			nestedIfToken := p.curToken
+			// Each "else if" is one more level of nesting, of the tree and
+			// of this function's recursion
+			if !p.enter() {
+				return nil
+			}
+			defer p.leave()
 			nestedIf := p.parseIf()
 			if nestedIf == nil {
 				// Don't wrap a missing statement in a block: printing or
